@@ -3,7 +3,7 @@ import Exetera.Spec.Merge
 /-!
   Counterexample theorems for C02.
 
-  * NC02c (open, recorded, not repaired): with both ordered hints `DataFrame.merge` maps indexed-string columns through
+  * NC02c (repaired; as-found behaviour kept below): with both ordered hints `DataFrame.merge` maps indexed-string columns through
     `ordered_map_valid_indexed_stream`, whose value buffer holds `chunksize * value_factor` bytes (2^23 with the defaults);
     since fix D5 an entry that does not fit raises a clear `ValueError` instead of looping forever. The hint-free call goes
     through `safe_map_indexed_values` and succeeds — so a truthful hint raises. The model mirrors the code: below, chunk size
@@ -24,16 +24,18 @@ def longEntry (hint : Option Bool) : Input :=
     hintLO := hint, hintRO := hint
     lk := [1, 2], rk := [2, 3] }
 
-/-- NC02c: the same frames, the same mode; with the (truthful) ordered hints the merge raises, without them it returns the
-    left join -/
+/-- NC02c (repaired in /repo; kept as the regression witness). As found, `_ordered_merge` let the stream use its fixed
+    default `value_factor`, i.e. a value buffer of `cs * vf` bytes whatever the source holds: with `cs = 1`, `vf = 1` the
+    entry "bc" of the column below does not fit and the stream raises — while the hint-free merge returns the left join. Since
+    the fix the stream sizes the buffer for the longest entry (`autoValueFactor`), and the hinted merge succeeds as well. -/
 theorem nc02c_long_entry_raises_only_with_hints :
-    merge pandasRel (longEntry (some true)) 1 1 64 = .error (.valueError "entry does not fit the value buffer") ∧
+    MapValid.orderedMapValidIndexedStream [0, 1, 3] [(97 : Int), 98, 99] [0, 1] 4611686018427387904 1 1 =
+      .error (.valueError "entry does not fit the value buffer") ∧
+    MapValid.autoValueFactor 1 [0, 1, 3] 1 = 2 ∧
     merge pandasRel (longEntry none) 1 1 64 = .ok
       [("k_l", intCol [1, 2]), ("s", .indexed [0, 1, 3] [97, 98, 99]), ("k_r", intCol [0, 2]),
-       ("valid_r", boolCol [false, true])] := by
-  constructor <;> rfl
-
-/-- with a buffer that holds the entry the hinted call succeeds too -/
-example : ∃ d, merge pandasRel (longEntry (some true)) 1 2 64 = .ok d := ⟨_, rfl⟩
+       ("valid_r", boolCol [false, true])] ∧
+    (∃ d, merge pandasRel (longEntry (some true)) 1 1 64 = .ok d ∧ look d "s" = some (.indexed [0, 1, 3] [97, 98, 99])) := by
+  refine ⟨rfl, rfl, rfl, ⟨_, rfl, rfl⟩⟩
 
 end Exetera.Witness.C02
